@@ -10,6 +10,24 @@ def replay(model, obligation):
     fails = []
     log = []
     modes = {'ok': 'ok', 'missing': None, 'shutdown': 'shutdown', 'busy': 'busy', 'borrow-error': 'error'}
+    if h == 'target-forwarded':
+        import types
+        for entry in ('execute', 'execute_async'):
+            got = {}
+            s = cl.Session.__new__(cl.Session)
+            s.client_protocol_handler = None
+            s._request_init_callbacks = []
+            fut = types.SimpleNamespace(send_request=lambda: None, result=lambda: 'ROWS')
+
+            def crf(query, parameters=None, trace=False, custom_payload=None, timeout=None, execution_profile=None, paging_state=None, host=None):
+                got.update(host=host, paging_state=paging_state, timeout=timeout, parameters=parameters)
+                return fut
+            s._create_response_future = crf
+            target = rf.Host('target')
+            getattr(s, entry)('SELECT 1', parameters=('p',), timeout=3.0, paging_state=b'ps', host=target)
+            if got.get('host') is not target or got.get('paging_state') != b'ps' or got.get('timeout') != 3.0 or got.get('parameters') != ('p',):
+                fails.append('Session.%s(host=target, paging_state=..., timeout=3.0): the future is created with %r' % (entry, got))
+        return {'reproduced': bool(fails), 'detail': '; '.join(fails[:3]) or 'arguments forwarded'}
     if h == 'send_request':
         for n in (1, 2, 3):
             for states in itertools.product(['ok', 'missing', 'shutdown', 'busy', 'borrow-error'], repeat=n):
